@@ -93,9 +93,87 @@ def _nested_namesake(cs):
     _dr_step(cs, root, fm, ren, {"steps": steps, "renames": ren, "classes": ["nested-namesake"]}, steps, "same", {"nested-namesake"}, 1, "nested-namesake")
 
 
+def _twin_rename(cs):
+    """two files that have the same path inside their own histories (outer notes.txt and nested A001/notes.txt, or
+    A001/Clips/c.mov and A002/Clips/c.mov on two cards with a history each) are renamed in one step"""
+    rng = cs.rng
+    d = cs.dir()
+    root = os.path.join(d, world.root_name(rng))
+    name = rng.choice(["notes.txt", "clip 1.mov", "x"])
+    inner = rng.choice(["", "Clips/"])
+    if rng.random() < 0.5:
+        hs = [".", rng.choice(["A001", "Card A"])]
+    else:
+        hs = ["A001", "A002"] + (["A003"] if rng.random() < 0.3 else [])
+    olds = {}
+    for i, h in enumerate(hs):
+        rel = ("" if h == "." else h + "/") + inner + name
+        os.makedirs(os.path.dirname(os.path.join(root, rel)), exist_ok=True)
+        with open(os.path.join(root, rel), "wb") as f:
+            f.write(b"twin%d" % i + rng.randbytes(4))
+        olds[h] = rel
+    with open(os.path.join(root, "other.bin"), "wb") as f:
+        f.write(b"o" + rng.randbytes(3))
+    fm = world.gen_formats(rng)[:2]
+    steps = []
+    for h in [x for x in hs if x != "."] + ["."]:
+        r = drive.run("create", [root if h == "." else os.path.join(root, h)] + world.fmt_args(fm))
+        steps.append(f"create {h} => {r.exit}")
+        if r.exit != 0:
+            cs.skip("prior-seal-failed")
+            return
+    ren = {}
+    for i, h in enumerate(hs):
+        nw = os.path.join(os.path.dirname(olds[h]), "r%d-" % i + name)
+        os.rename(os.path.join(root, olds[h]), os.path.join(root, nw))
+        ren[olds[h]] = nw
+    steps.append(f"renamed {ren}")
+    cs.count("files_with_same_path_in_their_histories_renamed_in_one_step")
+    ctx = {"steps": steps, "renames": ren, "classes": ["twin-rename"]}
+    r, new, before, after = hist.create(root, fm, ["-dr"])
+    steps.append(f"create -dr => {r.exit}")
+    cs.evaluated()
+    cs.count("dr_runs_judged")
+    cs.cls("twin-rename", "n%d" % len(ren), "root-in" if "." in hs else "cards", r.exit)
+    if r.internal:
+        cs.violation(classify.internal_key(r), classify.internal_sig(r, "create-dr"), {**ctx, **r.brief()})
+        return
+    if r.exit != 0:
+        cs.violation("dr-create-nonzero", {"kind": "dr-exit", "exit": r.exit, "stage": "twin", "classes": ["twin-rename"]}, {**ctx, "out": r.text[-500:]})
+        return
+    for h in hs:
+        names = [n for n in new.get(h, []) if n.endswith(".mhl")]
+        if len(names) != 1:
+            cs.violation("dr-no-manifest", {"kind": "dr-manifest-count", "nested": h != "."}, {**ctx, "history": h})
+            continue
+        m = xmlread.read_manifest_bytes(after[h][names[0]])
+        recs = {x["path"]: x for x in m["hashes"] if x["kind"] == "file"}
+        old_in = olds[h] if h == "." else olds[h][len(h) + 1 :]
+        new_in = ren[olds[h]] if h == "." else ren[olds[h]][len(h) + 1 :]
+        cs.count("previous_path_checked")
+        rec = recs.get(new_in)
+        if rec is None:
+            cs.violation("renamed-file-not-recorded", {"kind": "dr-record-missing", "stage": "twin"}, {**ctx, "history": h, "new": new_in})
+        elif rec["previousPath"] != old_in:
+            cs.violation("previous-path-wrong", {"kind": "dr-previous-path", "got_none": rec["previousPath"] is None, "stage": "twin", "classes": ["twin-rename"]}, {**ctx, "history": h, "new": new_in, "got": rec["previousPath"], "want": old_in})
+    for cmd in ("verify", "diff", "create"):
+        r2 = drive.run(cmd, [root] + (world.fmt_args(fm) if cmd == "create" else []))
+        steps.append(f"{cmd} => {r2.exit}")
+        cs.evaluated()
+        cs.count("followup_commands")
+        if r2.internal:
+            cs.violation(classify.internal_key(r2), classify.internal_sig(r2, cmd + "-after-dr"), {**ctx, **r2.brief()})
+            return
+        if r2.exit != 0:
+            cs.violation("followup-after-dr-nonzero", {"kind": "after-dr", "cmd": cmd, "exit": r2.exit, "stage": "twin"}, {**ctx, "out": r2.text[-500:]})
+            return
+
+
 def run_case(cs):
     if cs.rng.random() < 0.05:
         return _nested_namesake(cs)
+    if cs.rng.random() < 0.05:
+        return _twin_rename(cs)
     rng = cs.rng
     tree = world.gen_tree(rng, max_files=8, max_dirs=rng.choice([0, 2, 4]), min_files=2, classes=["plain", "plain", "space", "uni", "punct"], distinct=True)
     if rng.random() < 0.25:
